@@ -1,9 +1,11 @@
 package main
 
 import (
+	"bytes"
 	"encoding/json"
 	"fmt"
 	"go/types"
+	"io"
 	"math"
 	"reflect"
 	"sort"
@@ -37,13 +39,13 @@ var (
 	tAnyMap     = types.NewMap(types.Typ[types.String], tEmptyIface)
 )
 
-func gtNull() Value           { return Iface{} }
-func gtStr(s Value) Value     { return Iface{T: types.Typ[types.String], V: s} }
-func gtBool(b Value) Value    { return Iface{T: types.Typ[types.Bool], V: b} }
-func gtNum(f float64) Value   { return Iface{T: types.Typ[types.Float64], V: f} }
-func gtArr(a []Value) Value   { return Iface{T: tAnySlice, V: &SliceV{A: a}} }
-func gtObj(mp *MapV) Value    { return Iface{T: tAnyMap, V: mp} }
-func isNullGT(v Value) bool   { i, ok := v.(Iface); return ok && i.T == nil }
+func gtNull() Value         { return Iface{} }
+func gtStr(s Value) Value   { return Iface{T: types.Typ[types.String], V: s} }
+func gtBool(b Value) Value  { return Iface{T: types.Typ[types.Bool], V: b} }
+func gtNum(f float64) Value { return Iface{T: types.Typ[types.Float64], V: f} }
+func gtArr(a []Value) Value { return Iface{T: tAnySlice, V: &SliceV{A: a}} }
+func gtObj(mp *MapV) Value  { return Iface{T: tAnyMap, V: mp} }
+func isNullGT(v Value) bool { i, ok := v.(Iface); return ok && i.T == nil }
 func gtKind(v Value) string {
 	i, ok := v.(Iface)
 	if !ok {
@@ -937,6 +939,83 @@ func init() {
 		out := &SliceV{A: append(append([]Value{}, bs.A...), int64('\n'))}
 		m.callWrite(g, fr, in, w, out, func(res Value) Value { return res.(Tuple)[1] })
 	}
+	// json.NewDecoder(r).Decode(&v): the reader is drained on the first call; every Decode consumes the
+	// first JSON value of what is left (the real decoder finds its end) and ignores the rest
+	R("encoding/json.NewDecoder", func(m *Machine, a []Value) Value {
+		t := m.prog.ImportedPackage("encoding/json").Type("Decoder").Type()
+		c := newCell(zero(t))
+		m.side[c] = a[0]
+		return c
+	})
+	R("(*encoding/json.Decoder).Decode", func(m *Machine, a []Value) Value {
+		c := a[0].(Ptr)
+		var buf *SliceV
+		switch s := m.side[c].(type) {
+		case Iface:
+			data, err := m.readerDrain(s)
+			if e := err.(Iface); e.T != nil {
+				return err
+			}
+			buf = data
+		case *SliceV:
+			buf = s
+		}
+		var b []byte
+		var owner []int // element index of every byte of b
+		var leaves []*JSONLeaf
+		for i, e := range buf.A {
+			var chunk []byte
+			switch e := e.(type) {
+			case int64:
+				chunk = []byte{byte(e)}
+			case *JSONLeaf:
+				ph := fmt.Sprintf("@@LEAF%d@@", len(leaves))
+				leaves = append(leaves, e)
+				if e.Kind == "string" {
+					chunk = []byte(ph)
+				} else {
+					chunk = []byte(`"` + ph + `"`)
+				}
+			case *StrBlob:
+				chunk = []byte(m.concStr(e.S, "json bytes"))
+			default:
+				m.fail("unsupported", fmt.Sprintf("byte slice element %T in JSON input", e))
+			}
+			for range chunk {
+				owner = append(owner, i)
+			}
+			b = append(b, chunk...)
+		}
+		dec := json.NewDecoder(bytes.NewReader(b))
+		var x interface{}
+		if err := dec.Decode(&x); err != nil {
+			m.side[c] = &SliceV{A: []Value{}}
+			if err == io.EOF {
+				return m.errorValue("EOF")
+			}
+			return m.errorValue(err.Error())
+		}
+		rest := &SliceV{A: []Value{}}
+		if off := int(dec.InputOffset()); off < len(owner) {
+			rest.A = append(rest.A, buf.A[owner[off]:]...)
+		}
+		m.side[c] = rest
+		gt := gtFromNative(x)
+		if len(leaves) > 0 {
+			gt = substLeaves(x, leaves)
+		}
+		ti, _ := a[1].(Iface)
+		pt, isPtr := ti.T.(*types.Pointer)
+		if ti.T == nil || !isPtr || ti.V.(Ptr) == nil {
+			return m.errorValue("json: Unmarshal(non-pointer or nil)")
+		}
+		d := &decState{m: m}
+		d.decode(gt, pt.Elem(), ti.V.(Ptr))
+		if d.firstErr != "" {
+			return m.errorValue(d.firstErr)
+		}
+		return Iface{}
+	})
 	R("(*encoding/json.Encoder).SetEscapeHTML", func(m *Machine, a []Value) Value { return nil })
 	R("(*encoding/json.Encoder).SetIndent", func(m *Machine, a []Value) Value { return nil })
 }
